@@ -1,6 +1,6 @@
 from __future__ import division
 
-from . import der, ecdsa, ellipticcurve, eddsa
+from . import der, ecdsa, ellipticcurve, eddsa, numbertheory
 from .util import orderlen, number_to_string, string_to_number
 from ._compat import normalise_bytes, bit_length
 
@@ -224,6 +224,10 @@ class Curve:
         if empty:
             raise der.UnexpectedDER(
                 "Unexpected data after ECParameters.fieldID.Prime-p element"
+            )
+        if not numbertheory.is_prime(prime):
+            raise der.UnexpectedDER(
+                "ECParameters.fieldID.Prime-p is not a prime number"
             )
 
         # decode the ECParameters.curve sequence
